@@ -275,6 +275,18 @@ pub fn run(ctx: &Ctx) {
     ctx.rec.assume("spec writer / reader = harness/src/spec/{writer,reader}.rs; they are checked against each other on every case");
     let g = LGen { max_entries: ctx.tier.pick(300, 3000), big_runs: true };
     run_proptest(ctx, "foreign-layouts", PtCfg::new(ctx.lanes, ctx.tier.pick(400, 6000)), || strategy(g), check);
+    // a single (root) directory with far more entries than fit an uncompressed root: long runs of distinct
+    // small tiles, compressible directory, no leaves
+    let wide: Vec<Case> = (0..ctx.tier.pick(4usize, 12))
+        .map(|i| {
+            let mut l = super::c13::small_layout(2 + (i % 3) as u8, 1);
+            l.entries = (0..20_000 + 3000 * i).map(|k| crate::spec::writer::TEnt { gap: u32::from(k % 97 == 0), run: 1, sel: ((k * 7919) % 65536) as u16 }).collect();
+            l.data_mode = 2;
+            l.order = (i * 5 % 24) as u8;
+            Case { l, open: (i % 3) as u8 }
+        })
+        .collect();
+    run_list(ctx, "single-directory-over-16384-entries", &wide, check);
     let fx = fixtures();
     if fx.len() < 3 {
         ctx.rec.infra("repository fixtures not found under <repo>/test");
@@ -287,7 +299,7 @@ pub fn run(ctx: &Ctx) {
 
 pub fn replay(sub: &str, case: &Value) -> Option<CaseResult> {
     match sub {
-        "foreign-layouts" => Some(check(&super::de(case)?)),
+        "foreign-layouts" | "single-directory-over-16384-entries" => Some(check(&super::de(case)?)),
         "repository-fixtures" => Some(check_fixture(&super::de(case)?)),
         _ => None,
     }
